@@ -210,6 +210,8 @@ pub enum CutMode {
     Many(Vec<Index>),
     Singletons,
     SingletonsPlusEmpties(Vec<Index>),
+    /// equal-size chunks (block-wise processing; with periodic data the chunk means coincide bit for bit)
+    Regular(usize),
 }
 pub fn cut_mode() -> impl Strategy<Value = CutMode> {
     prop_oneof![
@@ -217,12 +219,14 @@ pub fn cut_mode() -> impl Strategy<Value = CutMode> {
         3 => vec(any::<Index>(), 4..12).prop_map(CutMode::Many),
         2 => Just(CutMode::Singletons),
         1 => vec(any::<Index>(), 1..4).prop_map(CutMode::SingletonsPlusEmpties),
+        2 => proptest::sample::select(vec![2usize, 3, 4, 7, 8, 16, 64, 100, 256, 1024, 4096]).prop_map(CutMode::Regular),
     ]
 }
 pub fn make_cuts(mode: &CutMode, n: usize) -> Vec<usize> {
     let mut cuts: Vec<usize> = match mode {
         CutMode::Few(ix) | CutMode::Many(ix) => ix.iter().map(|i| i.index(n + 1)).collect(),
         CutMode::Singletons => (1..n).collect(),
+        CutMode::Regular(step) => (1..n).filter(|i| i % step == 0).collect(),
         CutMode::SingletonsPlusEmpties(ix) => {
             let mut c: Vec<usize> = (1..n).collect();
             c.extend(ix.iter().map(|i| i.index(n + 1)));
